@@ -69,6 +69,28 @@ class _FaultyOs(object):
         return self._call('remove', *a)
 
 
+class _FaultyFile(object):
+    """the stream's file object during one write: the first flush() fails
+    (ENOSPC) and - as with a real buffered file - what was written stays in
+    the buffer and reaches the disk with the next successful flush"""
+
+    def __init__(self, f, state):
+        self.__dict__['_f'] = f
+        self.__dict__['_state'] = state
+
+    def __getattr__(self, name):
+        return getattr(self._f, name)
+
+    def __setattr__(self, name, value):
+        setattr(self._f, name, value)
+
+    def flush(self):
+        if not self._state['fired']:
+            self._state['fired'] = True
+            raise OSError(errno.ENOSPC, 'No space left on device (simulated)')
+        return self._f.flush()
+
+
 class FileWorld(object):
     def __init__(self, case):
         from circus.stream import file_stream
@@ -85,6 +107,7 @@ class FileWorld(object):
         self.stream = None
         self.faults_fired = 0
         self.skipped_after_fault = 0
+        self.alts = None    # after a failed flush: the logical logs allowed
         self.max_bytes = case['max_bytes']
         self.backups = case['backup_count']
         tf = case.get('time_format')
@@ -152,7 +175,37 @@ class FileWorld(object):
         self.t += dt
         exp = formatted(chunk, self.tf, pid, self.clock.now())
         lost = False
-        if fault:
+        if fault and fault[0] == 'flush':
+            state = {'fired': False}
+            st = self.stream
+            if st._file is not None:
+                st._file = _FaultyFile(st._file, state)
+            self.fs_mod.open = lambda *a, **k: _FaultyFile(open(*a, **k),
+                                                           state)
+            raised = False
+            try:
+                st({'data': chunk, 'pid': pid, 'name': 'stdout'})
+            except OSError:
+                if not state['fired']:
+                    raise
+                raised = True
+            finally:
+                del self.fs_mod.open
+                if isinstance(st._file, _FaultyFile):
+                    st._file = st._file._f
+            if state['fired']:
+                self.faults_fired += 1
+            if raised:
+                # the caller was told. The chunk sits in the file object's
+                # buffer: it may reach the disk with the next flush or never
+                # - once at most, and in its place
+                base = self.alts or [self.logical]
+                self.alts = base + [a + exp for a in base]
+                self.last_write = ''
+                self.since_rollover_ok = False
+                self.check(self.files(), 'write whose flush failed')
+                return
+        elif fault:
             fos = _FaultyOs(os, fault[0], fault[1])
             self.fs_mod.os = fos
             try:
@@ -182,6 +235,8 @@ class FileWorld(object):
             self.check(after, 'write that failed with a disk error')
             return
         self.logical += exp
+        if self.alts:
+            self.alts = [a + exp for a in self.alts]
         self.last_write = exp
         rolled = (0 in before and before.get(0) and
                   not after.get(0, '').startswith(before[0])) or \
@@ -194,6 +249,19 @@ class FileWorld(object):
         self.check(after, 'write of %d bytes' % len(chunk))
 
     def check(self, files, what):
+        if not self.alts:
+            return self._check(files, what)
+        saved, results = self.viol, []
+        for a in self.alts:
+            self.viol, self.logical = list(saved), a
+            self._check(files, what)
+            results.append(self.viol)
+            if len(self.viol) == len(saved):
+                break
+        self.viol = min(results, key=len)
+        self.logical = self.alts[0]
+
+    def _check(self, files, what):
         mb, bc = self.max_bytes, self.backups
         stray = [k for k in files if not isinstance(k, int)]
         if stray:
@@ -411,7 +479,7 @@ class C20(Prop):
             else:
                 ops.append(['open'])
         ws = [o for o in ops if o[0] == 'w']
-        if rot and ws and rng.random() < 0.08:
+        if ws and rng.random() < (0.1 if rot else 0.05):
             # one transient disk error inside a rollover: the k-th rename /
             # remove of one write fails, the write is reported as failed;
             # the retained data stay a contiguous tail and later writes are
@@ -419,7 +487,8 @@ class C20(Prop):
             o = rng.choice(ws)
             while len(o) < 5:
                 o.append(1 if len(o) == 3 else False)
-            o.append([rng.choice(['rename', 'rename', 'remove']),
+            o.append([rng.choice(['rename', 'rename', 'remove', 'flush',
+                                  'flush']),
                       rng.choice([1, 1, 2, 3])])
         return {'max_bytes': mb, 'backup_count': bc, 'time_format': tf,
                 'pre': pre, 'ops': ops}
